@@ -171,8 +171,12 @@ def build(spec, upto=None, image=True):
             shared[key] = make_material(m)
         return shared[key]
     for i, s in enumerate(surfs, start=1):
+        kw = surface_kwargs(s)
+        if spec.get('share_materials') and 'coefficients' in kw:
+            # ... and ONE coefficient list object for surfaces given the same coefficients
+            kw['coefficients'] = shared.setdefault('coeffs:' + repr(kw['coefficients']), kw['coefficients'])
         o.add_surface(index=i, is_stop=bool(s.get('stop')), material=mat_of(s['mat']),
-                      thickness=s['t'], **surface_kwargs(s))
+                      thickness=s['t'], **kw)
     if image:
         img = spec.get('img') or S()
         o.add_surface(index=len(surfs) + 1, material=make_material(img.get('mat', 'air')), **surface_kwargs(img))
